@@ -239,10 +239,17 @@ def run(repo: Repo, chk: Check, thorough: bool = False) -> None:
     if coll:
         for q in (f'{SYS}._remove', f'{SYS}.handleDuplicate.readd', f'{DOC}._handle_reparenting_pre', f'{DOC}._handle_reparenting_post'):
             f = repo.func(q)
-            walks = any(isinstance(n, ast.Attribute) and n.attr == coll for n in f.walk())
+            # ... by RECURSION: the loop(s) that hold the recursive call iterate that collection too (a superseded class has members of its own)
+            walks = False
+            for n in f.walk():
+                if isinstance(n, ast.For) and any(isinstance(c, ast.Call) and call_name(c) == f.name for st in n.body for c in ast.walk(st)):
+                    its = [n.iter] + ([v for v in _values(f, n.iter.id)] if isinstance(n.iter, ast.Name) else [])
+                    if any(isinstance(x, ast.Attribute) and x.attr == coll for it_ in its for x in ast.walk(it_)):
+                        walks = True
             chk.ob('R02.3', f'{q} :: also walks the superseded members ({coll})', walks,
-                   f'iterates contents and {coll}' if walks else
-                   f'{f.name} walks `contents` only: superseded members (kept in {coll}) keep their old registry key', f.loc)
+                   f'recurses over contents and {coll}' if walks else
+                   f'{f.name} recurses over `contents` only: superseded members (kept in {coll}) - or, when they are treated as leaves, THEIR members - '
+                   'keep their old registry key', f.loc)
     chk.require('R02.3', 12)
 
     # ------------------------------------------------------------------ R02.4 kind by place
